@@ -40,7 +40,26 @@ static CB cbs[Monitor::NSLOT] = {
 
 struct Ev { int slot; unsigned delay_ms; bool repeat; int true_runs; long long t_before, t_after, ticket_after; int epoch; };
 
+// Spacing of consecutive runs of a repeating event.  The Timer computes the next due instant from a clock value it read just before it
+// entered the callback; that read is not observable, and the thread may be descheduled between the read and the entry.  The check
+// therefore allows slack = interval/2 + 30 ms and a suspicious case is only reported when it trips in three executions of the same case.
+static bool g_spacing_suspect;
+static std::string g_spacing_detail;
+
+static void timer_case_once(long long n, uint64_t seed, bool report);
 static void timer_case(long long n, uint64_t seed)
+{
+	g_spacing_suspect = false;
+	timer_case_once(n, seed, true);
+	if (g_spacing_suspect) {
+		int again = 0;
+		for (int k = 0; k < 2; ++k) { g_spacing_suspect = false; timer_case_once(n, seed, false); if (g_spacing_suspect) ++again; }
+		if (again == 2) R.viol("oracle:repeat-run-sooner-than-interval", g_spacing_detail + " (reproduced in 3 of 3 executions of this case)");
+		else R.stat("spacing_suspects_not_reproduced");
+	}
+}
+
+static void timer_case_once(long long n, uint64_t seed, bool report)
 {
 	vh::Rng r(seed * 104729 + n);
 	R.case_mark(n);
@@ -64,7 +83,7 @@ static void timer_case(long long n, uint64_t seed)
 				e.repeat = r.chance(40);
 				e.true_runs = e.repeat ? (int)r.range(0, 3) : (r.chance(50) ? 5 : 0);	// a non-repeating event must not repeat whatever it returns
 				mon.true_runs[slot] = e.true_runs;
-				mon.work_us[slot] = r.chance(20) ? (int)r.range(100, 20000) : 0;
+				mon.work_us[slot] = r.chance(25) ? (int)r.range(100, r.chance(30) ? 60000 : 20000) : 0;
 				e.epoch = epoch;
 				if (r.chance(30)) std::this_thread::sleep_for(std::chrono::microseconds(r.range(0, 3000)));
 				e.t_before = now_ns();
@@ -94,6 +113,15 @@ static void timer_case(long long n, uint64_t seed)
 	std::vector<std::vector<Run>> per(Monitor::NSLOT);
 	for (auto& x : mon.runs) per[x.slot].push_back(x);
 	char d[512];
+	for (auto& e : evs) {
+		auto& rs = per[e.slot];
+		const long long interval = (long long)e.delay_ms * 1000000LL, slack = interval / 2 + 30000000LL;
+		for (size_t k = 1; k < rs.size(); ++k) if (interval > slack && rs[k].t_entry - rs[k - 1].t_entry < interval - slack) {
+			snprintf(d, sizeof d, "repeating event interval=%ums: run %zu entered only %.3f ms after run %zu (callback work %d us; another event's callback may have delayed the earlier run)", e.delay_ms, k, (rs[k].t_entry - rs[k - 1].t_entry) / 1e6, k - 1, mon.work_us[e.slot]);
+			g_spacing_suspect = true; g_spacing_detail = d;
+		}
+	}
+	if (!report) return;
 	uint64_t h = 0;
 	for (auto& e : evs) {
 		auto& rs = per[e.slot];
